@@ -4,22 +4,51 @@ import os
 import re
 import subprocess
 import time
-from vf import Inconclusive, parallel, require_clean, validate_traces, trace_slice, vfj_lines, GOENV
+from vf import Inconclusive, parallel, require_clean, validate_traces, trace_slice, vfj_lines, GOENV, tlaps
 
 CLAIM = {
-    "text": "TLC exhaustively checks an implementation-shaped model of RunAggregationLoop with its producers (AggLoop.tla: env, R readers, W workers, both channels with close-after-WaitGroup, main loop, 100 ms ticker, outputMutex, unbuffered outputDone) for mutual exclusion of Sample and render, no send on a closed channel, snapshot <= final counts, matched >= shown sum, final render after the last Sample / after the ticker exited / equal to the fold of all matches, deadlock freedom, termination under weak fairness and refinement of the observable specification AggLoopObs; five seeded design faults must each be rejected. TLC-simulated schedules of the model are replayed on the real loop (real batcher and extractor, gates and delays in harness code) together with seeded delay scenarios, and every recorded run (Sample/render enter-exit events with snapshots, return, crashes, hangs) is validated by TLC against AggLoopObs. The data-race clause is decided by the Go race detector on the driver, a status-line/pooled-expression stress and the CLI; the lock-discipline table (LockDiscipline.tla) is model-checked as a design check and aims the stress.",
+    "text": "TLC exhaustively checks an implementation-shaped model of RunAggregationLoop with its producers (AggLoop.tla: env, R readers, W workers, both channels with close-after-WaitGroup, main loop, 100 ms ticker, outputMutex, unbuffered outputDone) for mutual exclusion of Sample and render, no send on a closed channel, snapshot <= final counts, matched >= shown sum, final render after the last Sample / after the ticker exited / equal to the fold of all matches, deadlock freedom, termination under weak fairness and refinement of the observable specification AggLoopObs; names that cannot be opened leave through the open-error path and give their reader slot back (SlotsOK); six seeded design faults (one of them a slot kept on the open-error path, which TLC refutes by a deadlock) must each be rejected; the mutual-exclusion clause is additionally proved with TLAPS for executions of any length (AggMutex.tla). PoolOwn.tla models the ownership of pooled evaluation contexts (slicepool Get/Return in @map, @filter, @reduce, @for incl. its iteration-limit bail-out, funcs-file calls, formulas; every way out of every helper; any Get order): an object is held by at most one evaluation at a time and Return gives back only what the caller holds - a second Return or an early Return on one way out is refuted, a forgotten one accepted. TimeMemo.tla models the state the workers share inside one compiled time stage: remembering the detected layout in one atomic cell (the code) or the last conversion in ONE cell keeps every evaluation on the key of its own line; remembering input and result in TWO atomic cells is refuted (a pair of atomics is not an atomic pair; LockDiscipline's consistency groups reject it as a design). TLC-simulated schedules of the model are replayed on the real loop (real batcher and extractor, gates and delays in harness code) together with seeded delay scenarios, and every recorded run (Sample/render enter-exit events with snapshots, return, crashes, hangs) is validated by TLC against AggLoopObs - among them schedules with at least as many unopenable names (absent files, directories) as reader slots before, between and after readable files, whose non-termination is a violation (watchdog in a child process, confirmed by a re-run with a tripled deadline), the same inputs through the real CLI, and runs of 40 000 lines in 4 workers whose timestamps alternate in irregular runs (texts and demanded keys computed by TLC from the calendar specification; samples between two renders compressed into one event) so that per-key totals and every intermediate render are judged. TLC-simulated evaluation histories of PoolOwn (nests of helpers leaving by data-selected ways out, then 8-12 evaluations held inside their innermost bodies by a barrier = 16+ contexts held at once) are replayed on the real compiled helpers; every body must find its own element before and after the barrier. The data-race clause is decided by the Go race detector on the driver, a status-line/pooled-expression stress and the CLI; the lock-discipline table (LockDiscipline.tla) is model-checked as a design check and aims the stress.",
     "note": "Bounded: model constants as listed in tlc_runs (<=2 files x 2 batches, W,R<=2, <=2 ticks); real-code schedules are steered, not fully controlled (the 100 ms ticker is real time); absence of data races is shown only for the executed runs (dynamic detector). SIGINT exit path not exercised.",
-    "technique": "TLA+ model checking with refinement and fault seeding (TLC) + model-schedule replay + trace validation + Go race detector",
+    "technique": "TLA+ model checking with refinement and fault seeding (TLC) + model-schedule replay + trace validation + Go race detector + TLAPS proof of the exclusion clause",
 }
 
-INVS = "TypeOK Mutex NoSendOnClosed SnapLeFinal MatchedGeSum FinalAfterAll FinalComplete NoLeak"
+INVS = "TypeOK Mutex NoSendOnClosed SnapLeFinal MatchedGeSum FinalAfterAll FinalComplete NoLeak SlotsOK"
 FAULT_EXPECT = {  # seeded design fault -> an invariant/property that must reject it
     "nomutex": {"Mutex"},
     "buffered": {"FinalAfterAll", "Mutex", "NoLeak"},
     "nofinal": {"FinalComplete"},
     "earlyclose": {"NoSendOnClosed", "FinalAfterAll"},
     "latecount": {"MatchedGeSum"},
+    "slotleak": {"SlotsOK", "<deadlock>", "<temporal>"},
 }
+FAULT_CFG = {"slotleak": ("InM", 2, 1, 1, 1, 1)}   # needs unopenable names: as many as reader slots, then a file
+
+# PoolOwn: (label, Design, DH, DP, WaySel, E, must_hold)
+POOL_MC = [
+    ("the code, loops", "defer", "for", "limit", "loops", 2, True),
+    ("the code, array helpers", "defer", "for", "limit", "arrays", 2, True),
+    ("the code, funcs-file / formula contexts", "defer", "for", "limit", "ctx", 2, True),
+    ("a forgotten Return (accepted)", "leak", "for", "limit", "loops", 2, True),
+    ("second Return on the iteration-limit bail-out", "double", "for", "limit", "loops", 2, False),
+    ("second Return on the formula's error path", "double", "math", "err", "ctx", 2, False),
+    ("Return before the last use (@map)", "early", "map", "end", "loops", 2, False),
+]
+TIME_MC = [("format", "WkA", 2, 2, True), ("format", "WkB", 3, 2, True), ("format", "WkC", 2, 3, True), ("pair1", "WkA", 2, 2, True),
+           ("pair1", "WkB", 3, 2, True), ("pair2", "WkA", 2, 2, False), ("pair2v", "WkA", 2, 2, False), ("pair2", "WkD", 1, 2, True)]
+
+
+def pool_cfg(design, dh, dp, sel, e, depth=2, maxobj=4):
+    return ("SPECIFICATION Spec\nCONSTANTS\n E = %d\n MaxDepth = %d\n PoolInit = 1\n MaxObj = %d\n Design = \"%s\"\n DH = \"%s\"\n"
+            " DP = \"%s\"\n WaySel = \"%s\"\nINVARIANTS TypeOK Own NoForeign Conserved\nCHECK_DEADLOCK FALSE\n" % (e, depth, maxobj, design, dh, dp, sel))
+
+
+def time_cfg(memo, wk, w, nc):
+    return ("SPECIFICATION Spec\nCONSTANTS\n W = %d\n Work <- %s\n NC = %d\n Memo = \"%s\"\n"
+            "INVARIANTS TypeOK KeyOK CountLeFinal FinalCounts PairOK\nPROPERTIES Terminates\n" % (w, wk, nc, memo))
+
+
+def lock_cfg(fixed, cells):
+    return "SPECIFICATION Spec\nINVARIANTS TypeOK Disciplined Grouped\nCONSTANTS Fixed = %s\n TimeCells = \"%s\"\n" % (fixed, cells)
 
 
 def mc_cfg(files, w, r, bcap, rcap, ticks, fault="none", env="FALSE", live=True):
@@ -95,6 +124,8 @@ def normalise(v):
 def features(script, files):
     """what a schedule exercises (used to pick a varied subset and reported in the evidence)"""
     fs = set()
+    if any(len(fl) == 0 for fl in files):
+        fs.add("unopenable-names")
     depth_s = depth_r = False
     nrel = {}
     total_b = {f + 1: len(b) for f, b in enumerate(files)}
@@ -195,11 +226,38 @@ def report_races(run, text, where):
 def run_scenarios(run, scen_path, label, race=False, par=6):
     tr = os.path.join(run.scratch, "c05-%s-trace.ndjson" % label)
     meta = os.path.join(run.scratch, "c05-%s-meta.json" % label)
-    p = run.drv(["run", "-in", scen_path, "-out", tr, "-meta", meta, "-par", par], race=race, timeout=1500)
+    run.drv(["run", "-in", scen_path, "-out", tr, "-meta", meta, "-par", par], race=race, timeout=1500)
     m = json.load(open(meta))
-    if m.get("hangs") and not label.endswith("-again"):
-        # non-termination is only reported when it repeats (a starved machine can stall a run)
-        return run_scenarios(run, scen_path, label + "-again", race=race, par=max(2, par // 2))
+    if m.get("hangs"):
+        # non-termination is only reported when it repeats with a tripled deadline on a quieter machine
+        # (a starved machine can stall a run): the hung scenarios alone are run again, two at a time
+        hung = {h["t"] for h in m["hangs"]}
+        confirm = set(sorted(hung)[:4])     # each confirmation costs up to a minute: a few of them decide
+        again = os.path.join(run.scratch, "c05-%s-again.ndjson" % label)
+        with open(again, "w") as f:
+            for line in open(scen_path):
+                sc = json.loads(line)
+                if sc["t"] in confirm:
+                    sc["deadline"] = 60
+                    f.write(json.dumps(sc, separators=(",", ":")) + "\n")
+        tr2 = os.path.join(run.scratch, "c05-%s-again-trace.ndjson" % label)
+        meta2 = os.path.join(run.scratch, "c05-%s-again-meta.json" % label)
+        run.drv(["run", "-in", again, "-out", tr2, "-meta", meta2, "-par", 2], race=race, timeout=1500)
+        m2 = json.load(open(meta2))
+        merged = os.path.join(run.scratch, "c05-%s-merged.ndjson" % label)
+        with open(merged, "w") as out:
+            keep = True
+            for line in open(tr):
+                if '"event":"reset"' in line:
+                    keep = json.loads(line).get("t") not in hung
+                if keep:
+                    out.write(line)
+            out.write(open(tr2).read())
+        tr = merged
+        m["hangs"] = m2.get("hangs") or []
+        m["hangs_first_run"] = sorted(hung)
+        for k in ("races", "crashes", "infra"):
+            m[k] = [x for x in (m.get(k) or []) if x["t"] not in hung] + (m2.get(k) or [])
     if m.get("infra"):
         raise Inconclusive("harness trouble in %s runs: %s" % (label, json.dumps(m["infra"])[:1500]))
     return tr, m
@@ -241,6 +299,9 @@ def check(run):
         "the SIGINT branch of the loop (exitSignal) is not exercised; it joins the same tail as a closed channel",
         "data races: decided by the dynamic race detector on the executed runs only; the model contributes the lock-discipline design check",
         "model bounds: see tlc_runs (files/batches/W/R/capacities/ticks); readCh capacity is 1..2 in the model, 5 in the code",
+        "pool replay: the probe holds 16+ contexts at once (E x 4-6 goroutines x chain depth); a pool created with more objects than that would not be drained (weaker, never a false alarm)",
+        "time stage: all lines of a run are written in one layout (the documented use of the cached format); timestamp texts and keys come from TimeCal (C18) in UTC",
+        "a name that cannot be opened is materialised as an absent file or as a directory; non-termination is reported only when it repeats with a tripled deadline",
     ]
     # ---- builds first (fail early), race build in the background of B3
     run.build_harness()
@@ -248,31 +309,64 @@ def check(run):
 
     # ---- B3: exhaustive model checking
     if quick:
-        mcs = [("InA", 2, 2, 1, 1, 1, True), ("InA", 2, 1, 1, 2, 2, True), ("InB", 2, 1, 1, 1, 2, True), ("InE", 2, 1, 1, 1, 1, True)]
+        mcs = [("InA", 2, 2, 1, 1, 1, True), ("InA", 2, 1, 1, 2, 2, True), ("InB", 2, 1, 1, 1, 2, True), ("InE", 2, 1, 1, 1, 1, True),
+               ("InM", 2, 1, 1, 1, 1, True), ("InN", 1, 2, 1, 1, 1, True), ("InO", 1, 2, 1, 1, 1, True), ("InP", 1, 1, 1, 1, 1, True)]
         flt = ("InB", 2, 1, 1, 1, 2)
     else:
         mcs = [("InA", 2, 2, 1, 1, 2, True), ("InA", 2, 1, 2, 2, 3, True), ("InB", 2, 1, 1, 2, 3, True),
                ("InC", 2, 2, 1, 1, 2, True), ("InD", 2, 2, 1, 2, 2, False), ("InE", 2, 2, 1, 1, 2, True),
-               ("InC", 1, 3, 2, 1, 2, True), ("InD", 2, 2, 1, 2, 3, False)]
+               ("InC", 1, 3, 2, 1, 2, True), ("InD", 2, 2, 1, 2, 3, False),
+               ("InM", 2, 1, 2, 2, 2, True), ("InN", 2, 2, 1, 2, 2, True), ("InO", 2, 2, 1, 1, 2, True), ("InO", 2, 3, 1, 1, 2, True),
+               ("InP", 2, 1, 1, 1, 2, True)]
         flt = ("InA", 2, 2, 1, 1, 2)
     jobs = []
     for (f, w, r, b, rc, tk, live) in mcs:
         jobs.append(lambda f=f, w=w, r=r, b=b, rc=rc, tk=tk, live=live: (
             (f, w, r, b, rc, tk), run.tlc("AggLoop_MC", mc_cfg(f, w, r, b, rc, tk, live=live), workers=2 if quick else 4, timeout=3000, xmx="2g",
-                                          coverage=(f == "InA" and r == 2 and rc == 1),
+                                          coverage=(f == "InA" and r == 2 and rc == 1) or (f == "InM" and rc == 1),
                                           label="AggLoop %s W=%d R=%d BCap=%d RCap=%d ticks=%d%s" % (f, w, r, b, rc, tk, " +liveness" if live else ""))))
     for fault in FAULT_EXPECT:
-        f, w, r, b, rc, tk = flt
+        f, w, r, b, rc, tk = FAULT_CFG.get(fault, flt)
         jobs.append(lambda fault=fault, f=f, w=w, r=r, b=b, rc=rc, tk=tk: (
             fault, run.tlc("AggLoop_MC", mc_cfg(f, w, r, b, rc, tk, fault=fault, live=False), workers=1, timeout=3000, xmx="1g",
                            label="AggLoop fault=%s (must be rejected)" % fault)))
-    jobs.append(lambda: ("lock", run.tlc("LockDiscipline", "SPECIFICATION Spec\nINVARIANTS TypeOK Disciplined\nCONSTANTS Fixed = TRUE\n",
-                                          workers=1, xmx="1g", label="LockDiscipline (as fixed)")))
-    jobs.append(lambda: ("lock0", run.tlc("LockDiscipline", "SPECIFICATION Spec\nINVARIANTS TypeOK Disciplined\nCONSTANTS Fixed = FALSE\n",
-                                           workers=1, xmx="1g", label="LockDiscipline (as originally read; must be rejected)")))
-    for tag, r in parallel(jobs, 5):
+    jobs.append(lambda: ("lock", run.tlc("LockDiscipline", lock_cfg("TRUE", "format"), workers=1, xmx="1g", label="LockDiscipline (as fixed)")))
+    jobs.append(lambda: ("lock", run.tlc("LockDiscipline", lock_cfg("TRUE", "pair1"), workers=1, xmx="1g",
+                                         label="LockDiscipline (last conversion remembered in one cell)")))
+    jobs.append(lambda: ("lock0", run.tlc("LockDiscipline", lock_cfg("FALSE", "format"), workers=1, xmx="1g",
+                                          label="LockDiscipline (as originally read; must be rejected)")))
+    jobs.append(lambda: ("lock2", run.tlc("LockDiscipline", lock_cfg("TRUE", "pair2"), workers=1, xmx="1g",
+                                          label="LockDiscipline (last input / last result in two atomic cells; must be rejected)")))
+    pools = list(POOL_MC)
+    if not quick:
+        pools += [("second Return when the condition turns false", "double", "for", "end", "loops", 2, False),
+                  ("second Return in a funcs-file call", "double", "ff", "end", "ctx", 2, False)]
+    for (lab, design, dh, dp, sel, e, hold) in pools:
+        jobs.append(lambda lab=lab, design=design, dh=dh, dp=dp, sel=sel, e=e, hold=hold: (
+            ("pool", lab, hold), run.tlc("PoolOwn", pool_cfg(design, dh, dp, sel, e, maxobj=4 if e == 2 else 6), workers=2, timeout=3000, xmx="2g",
+                                         label="PoolOwn %s%s" % (lab, "" if hold else " (must be rejected)"))))
+    for (memo, wk, w, nc, hold) in TIME_MC:
+        jobs.append(lambda memo=memo, wk=wk, w=w, nc=nc, hold=hold: (
+            ("time", memo + " " + wk, hold), run.tlc("TimeMemo_MC", time_cfg(memo, wk, w, nc), workers=1, timeout=3000, xmx="1g",
+                                                     label="TimeMemo %s %s%s" % (memo, wk, "" if hold else " (must be rejected)"))))
+    jobs.append(lambda: ("tlaps", tlaps(run, "AggMutex", threads=3)))
+    for tag, r in parallel(jobs, 4):
+        if tag == "tlaps":
+            continue
+        if isinstance(tag, tuple) and tag[0] in ("pool", "time"):
+            kind, lab, hold = tag
+            if hold:
+                require_clean(run, r, "%s %s" % (kind, lab))
+            else:
+                want = "Own" if kind == "pool" else "KeyOK"
+                if want not in r.violated:
+                    raise Inconclusive("negative control %s %s was not refuted by %s (violated=%s)" % (kind, lab, want, r.violated))
+            continue
         if tag == "lock":
             require_clean(run, r, "LockDiscipline")
+        elif tag == "lock2":
+            if "Grouped" not in r.violated:
+                raise Inconclusive("LockDiscipline does not flag a memo kept in two separate atomic cells")
         elif tag == "lock0":
             if "Disciplined" not in r.violated:
                 raise Inconclusive("LockDiscipline does not flag the original unguarded accesses")
@@ -285,15 +379,19 @@ def check(run):
                 acts = ("EnvRel", "Claim", "RSend", "RDone", "CloseBatch", "WRecv", "WExit", "WSend", "CloseRead", "MRecv",
                         "MClosed", "MLock", "MSEnter", "MSExit", "MUnlock", "DoneRendezvous", "MFinalEnter", "MFinalExit",
                         "MRet", "TTick", "TRender", "TUnlock")
+                if tag[0] == "InM":
+                    acts = ("Claim", "ROpenFail", "RSend", "RDone", "CloseBatch")
                 zero = [a for a, (n, _) in r.coverage.items() if n == 0 and a.split(".")[1] in acts and a.split(".")[1] != "EnvRel"]
                 if zero:
                     raise Inconclusive("vacuous model: actions never taken: %s" % zero)
     run.cov["b3_wall_s"] = round(time.time() - t_b3, 1)
 
     # ---- B1: schedules simulated by TLC, replayed on the real loop
-    gens = [("GenA", 2, 2, 1, 2, 3), ("GenB", 2, 2, 1, 2, 3), ("GenC", 2, 1, 2, 2, 3), ("GenD", 1, 2, 1, 1, 2)]
+    gens = [("GenA", 2, 2, 1, 2, 3), ("GenB", 2, 2, 1, 2, 3), ("GenC", 2, 1, 2, 2, 3), ("GenD", 1, 2, 1, 1, 2),
+            ("GenM", 2, 2, 1, 2, 2), ("GenN", 2, 2, 1, 2, 2), ("GenO", 1, 2, 1, 1, 2)]
     if not quick:
-        gens += [("GenA", 1, 1, 1, 1, 3), ("GenB", 2, 3, 2, 2, 3), ("GenD", 2, 2, 2, 2, 3)]
+        gens += [("GenA", 1, 1, 1, 1, 3), ("GenB", 2, 3, 2, 2, 3), ("GenD", 2, 2, 2, 2, 3), ("GenM", 1, 1, 1, 1, 2), ("GenN", 2, 1, 2, 2, 3),
+                 ("GenO", 2, 3, 1, 2, 2)]
     nsim = 120 if quick else 600
     outs = parallel([lambda g=g: run.tlc("AggLoop_Gen", gen_cfg(*g), workers=1, simulate="num=%d" % nsim, depth=400,
                                          timeout=600, xmx="1g", label="AggLoop_Gen %s W=%d R=%d" % (g[0], g[1], g[2])) for g in gens], 4)
@@ -316,16 +414,22 @@ def check(run):
             if {int(k): n for k, n in v["final"] if n} != total or v["matched"] != sum(total.values()):
                 raise Inconclusive("model's final render differs from the fold of its input: %s" % v)
             cands.append({"files": v["files"], "workers": v["w"], "readers": v["r"], "buf": v["bcap"],
-                          "batch": max(len(b) for fl in v["files"] for b in fl), "script": script,
+                          "batch": max([len(b) for fl in v["files"] for b in fl] or [1]), "script": script,
                           "features": sorted(features(script, v["files"]))})
     if len(cands) < 50:
         raise Inconclusive("schedule generator produced only %d schedules" % len(cands))
-    chosen = pick(cands, 36 if quick else 240, run.seed)
+    chosen = pick(cands, 42 if quick else 260, run.seed)
+    life_vecs = {}   # one model run per input with unopenable names, for the CLI
+    for c in cands:
+        if "unopenable-names" in c["features"]:
+            life_vecs.setdefault(json.dumps(c["files"]) + str(c["readers"]), c)
     scen = []
     for i, c in enumerate(chosen):
         scen.append({"t": i + 1, "src": "tlc", "mode": "files", "workers": c["workers"], "readers": c["readers"],
                      "batch": c["batch"], "buf": c["buf"], "files": c["files"], "script": c["script"],
                      "status": i % 2 == 0})
+        if "unopenable-names" in c["features"]:
+            scen[-1]["missing"] = "dir" if i % 3 == 2 else "absent"
         if "input-during-render" in c["features"]:
             scen[-1]["rsleep"] = {"*": 150}   # keep that render open well beyond the delivery
     featcount = {}
@@ -357,8 +461,10 @@ def check(run):
     def do_race():
         run.build_harness(race=True)
         tr, m = run_scenarios(run, race_scen, "race", race=True, par=4)
-        p = run.drv(["stress", "-ms", 2500 if quick else 40000, "-files", 40 if quick else 120], race=True,
+        p = run.drv(["stress", "-ms", 2500 if quick else 40000, "-files", 40 if quick else 120, "-hang", 60], race=True,
                     env={"GORACE": "halt_on_error=0 exitcode=0"}, timeout=1500, check=False)
+        if p.returncode == 7 and "C05-STRESS-HANG" in p.stderr:
+            return tr, m, p, "hang"
         if p.returncode != 0 and "DATA RACE" not in p.stderr:
             if "panic:" in p.stderr or "fatal error:" in p.stderr:
                 return tr, m, p, "crash"
@@ -368,7 +474,28 @@ def check(run):
     def do_cli():
         return cli_race(run, quick)
 
-    (tr, m), (rtr, rm, sp, scrash), cli = parallel([do_plain, do_race, do_cli], 3)
+    def do_pool():
+        return pool_histories(run, quick)
+
+    def do_bulk():
+        return bulk_runs(run, quick)
+
+    (tr, m), (rtr, rm, sp, scrash), cli, pool_cov, (btr, bm, bvecs) = parallel([do_plain, do_race, do_cli, do_pool, do_bulk], 3)
+    if scrash == "hang":
+        # the stress reads small files from disk: a round that does not return within 90 s has hung; confirm once
+        p2 = run.drv(["stress", "-ms", 1500, "-files", 40, "-hang", 120], race=True,
+                     env={"GORACE": "halt_on_error=0 exitcode=0"}, timeout=1500, check=False)
+        if p2.returncode == 7:
+            path = run.save_replay("stress-hang.txt", p2.stderr[-40000:])
+            run.violation("stress:hang", "the pipeline does not terminate although its input (small files on disk, two of them missing) "
+                          "is exhausted: RunAggregationLoop did not return within 60 s and, run again, within 120 s", path)
+        scrash = ""
+    life = cli_life(run, life_vecs)
+    bres, bn = judge_traces(run, btr, bm, "bulk", {v["t"]: v for v in bvecs})
+    run.cov["bulk"] = {"runs": bn, "lines": bm.get("lines", 0), "events": bres["consumed"]}
+    run.cov["pool"] = pool_cov
+    run.cov["cli_termination_runs"] = life
+    run.cov["evaluations"] += pool_cov["evaluations"] + life
 
     res, ntr = judge_traces(run, tr, m, "plain", scen_by_t)
     run.cov["distinct_nontrivial"] += sum(1 for s in scen if s["src"] != "tlc" or s.get("script"))
@@ -394,6 +521,194 @@ def check(run):
     run.cov["rule"] = ("B3: all behaviours of AggLoop within the listed bounds incl. liveness/refinement, 5 seeded faults rejected; "
                        "B1: distinct TLC-simulated schedules replayed on the real loop (non-trivial = has a steering script); "
                        "B2: every recorded run validated against AggLoopObs; race clause: race-detector runs")
+
+
+def poolgen_cfg(e, depth, npre):
+    return ("SPECIFICATION GSpec\nCONSTANTS\n E = %d\n MaxDepth = %d\n PoolInit = 1\n MaxObj = %d\n Design = \"defer\"\n DH = \"for\"\n"
+            " DP = \"limit\"\n WaySel = \"all\"\n NPre = %d\nINVARIANTS Promise Dump\nCHECK_DEADLOCK FALSE\n" % (e, depth, e * depth + 2, npre))
+
+
+def pool_histories(run, quick):
+    """PoolOwn_Gen histories replayed on the real pooled helpers (plain and under the race detector)."""
+    import random
+    cfgs = [(2, 2, 2)] if quick else [(2, 2, 2), (3, 2, 2)]
+    hists, seen = [], set()
+    for (e, d, npre) in cfgs:
+        r = run.tlc("PoolOwn_Gen", poolgen_cfg(e, d, npre), workers=1, simulate="num=%d" % (400 if quick else 1500), depth=120,
+                    timeout=900, xmx="1g", label="PoolOwn_Gen E=%d depth=%d" % (e, d))
+        if r.violated or r.errors:
+            raise Inconclusive("history generator failed: %s" % r.out[-2000:])
+        for v in vfj_lines(r.out):
+            key = json.dumps(v["hist"])
+            if key in seen:
+                continue
+            seen.add(key)
+            if not v["own"]:
+                raise Inconclusive("PoolOwn_Gen produced a history that breaks its own promise")
+            hists.append(v)
+    rnd = random.Random(run.seed)
+    rnd.shuffle(hists)
+    # cover every way out in a prelude several times, then fill
+    want = 70 if quick else 500
+    need, chosen = {}, []
+    for v in hists:
+        ways = {(x["h"], x["path"]) for x in v["hist"][:next((i for i, x in enumerate(v["hist"]) if x["op"] == "probe"), 0)] if x["op"] == "in"}
+        v["_ways"] = ways
+    for v in hists:
+        if len(chosen) < want and any(need.get(w, 0) < 4 for w in v["_ways"]):
+            chosen.append(v)
+            for w in v["_ways"]:
+                need[w] = need.get(w, 0) + 1
+    for v in hists:
+        if len(chosen) >= want:
+            break
+        if v not in chosen:
+            chosen.append(v)
+    if len(need) < 11:
+        raise Inconclusive("history generator did not cover every way out in a prelude: %s" % sorted(need))
+    for i, v in enumerate(chosen):
+        v["t"] = 300000 + i
+    cov = {"simulated_distinct": len(hists), "replayed": len(chosen), "ways_out_in_preludes": {"%s/%s" % w: n for w, n in sorted(need.items())},
+           "evaluations": 0, "max_held_at_once": 0, "race_replayed": 0}
+
+    def replay(sub, label, race):
+        todo = list(sub)
+        for attempt in range(4):
+            if not todo:
+                return
+            hp = os.path.join(run.scratch, "c05-pool-%s-%d.ndjson" % (label, attempt))
+            op = os.path.join(run.scratch, "c05-pool-%s-%d-obs.ndjson" % (label, attempt))
+            with open(hp, "w") as f:
+                for v in todo:
+                    f.write(json.dumps({k: x for k, x in v.items() if not k.startswith("_")}, separators=(",", ":")) + "\n")
+            p = run.drv(["pool", "-in", hp, "-out", op, "-mult", 4 if quick else 6], race=race, timeout=1500, check=False,
+                        env={"GORACE": "halt_on_error=0 exitcode=0"})
+            obs = [json.loads(l) for l in open(op)] if os.path.exists(op) else []
+            by_t = {v["t"]: v for v in todo}
+            nbad = 0
+            for o in obs:
+                cov["evaluations"] += o["evals"]
+                cov["max_held_at_once"] = max(cov["max_held_at_once"], o["holders"])
+                if o["missing"] or o["foreign"]:
+                    nbad += 1
+                    if nbad <= 6:
+                        path = run.save_replay("pool-%s-%d-%s.json" % (label, o["t"], o["phase"]), {"history": by_t[o["t"]]["hist"], "observed": o})
+                        run.violation("pool:foreign-context",
+                                      "history %d (%s, %d contexts held at once): a helper body found in its pooled context an element that is not "
+                                      "its own evaluation's (PoolOwn: Own / NoForeign) - records owed but not seen %s, seen but owed by nobody %s; "
+                                      "expressions %s" % (o["t"], o["phase"], o["holders"], o["missing"][:4], o["foreign"][:4], o["exprs"][:2]), path)
+                elif o.get("infra"):
+                    raise Inconclusive("pool replay: %s (history %d)" % (o["infra"], o["t"]))
+            if race:
+                report_races(run, p.stderr, "pool-histories")
+            if p.returncode == 0:
+                return
+            marks = re.findall(r"pool: history (\d+)", p.stderr)
+            if not marks or not ("fatal error:" in p.stderr or "panic:" in p.stderr) or "rare/pkg/" not in p.stderr:
+                raise Inconclusive("pool driver failed (%d): %s" % (p.returncode, p.stderr[-3000:]))
+            t = int(marks[-1])
+            first = next((l for l in p.stderr.splitlines() if l.startswith(("fatal error:", "panic:"))), "crash")
+            path = run.save_replay("pool-%s-crash-%d.txt" % (label, t), json.dumps(by_t[t]["hist"]) + "\n" + p.stderr[:12000])
+            run.violation("pool:crash", "history %d: the real helpers crashed while the evaluations of the history ran (%s): a pooled "
+                          "context that is its own parent / shared between evaluations" % (t, first), path)
+            todo = [v for v in todo if v["t"] > t]
+
+    replay(chosen, "plain", False)
+    sub = chosen[:16 if quick else 120]
+    cov["race_replayed"] = len(sub)
+    replay(sub, "race", True)
+    run.cov["traces_validated_against_impl"] += len(chosen) + len(sub)
+    run.sample({"pool_history": {k: x for k, x in chosen[0].items() if not k.startswith("_")}})
+    return cov
+
+
+def bulk_runs(run, quick):
+    """TimeMemo_Gen vectors: many lines with alternating timestamps in several workers, judged by AggLoop_Trace."""
+    r = run.tlc("TimeMemo_Gen", "SPECIFICATION Spec\nINVARIANTS Dump\nCHECK_DEADLOCK FALSE\n", workers=1, timeout=600, xmx="1g",
+                label="TimeMemo_Gen (timestamp texts and demanded keys from TimeCal)")
+    if r.violated or r.errors:
+        raise Inconclusive("TimeMemo_Gen failed: %s" % r.out[-2000:])
+    base = vfj_lines(r.out)
+    if len(base) < 8:
+        raise Inconclusive("TimeMemo_Gen produced %d vectors" % len(base))
+    vecs = []
+    reps = 1 if quick else 4
+    for rep in range(reps):
+        for i, v in enumerate(base):
+            if quick and (i + run.seed) % 2:
+                continue
+            j = i + rep + run.seed
+            vecs.append(dict(v, src="tlc:bulk", t=200000 + len(vecs), lines=40000 if quick else 60000, workers=2 + j % 4, batch=3 + (j * 5) % 17,
+                             files=1 + j % 3, readers=1 + j % 3, maxrun=10 + (j * 7) % 50, salt=run.seed * 100 + rep))
+    vp = os.path.join(run.scratch, "c05-bulk-vec.ndjson")
+    with open(vp, "w") as f:
+        for v in vecs:
+            f.write(json.dumps(v, separators=(",", ":")) + "\n")
+    tr = os.path.join(run.scratch, "c05-bulk-trace.ndjson")
+    meta = os.path.join(run.scratch, "c05-bulk-meta.json")
+    run.drv(["bulk", "-in", vp, "-out", tr, "-meta", meta], timeout=1500)
+    m = json.load(open(meta))
+    m["hangs"] = m.get("hangs") or []
+    run.sample({"bulk_vector": {k: vecs[0][k] for k in ("expr", "layout", "lines", "workers", "batch", "files")}})
+    return tr, m, vecs
+
+
+def cli_life(run, life_vecs):
+    """the real CLI on inputs with unopenable names (model runs of AggLoop_Gen with Missing files): it must terminate and show the model's
+    final counts.  A run that does not end is confirmed with a tripled deadline before it is reported."""
+    exe = run.build_cli()
+    n = nhang = 0
+    for idx, c in enumerate(sorted(life_vecs.values(), key=lambda c: json.dumps(c["files"]))):
+        for variant in ("absent", "dir"):
+            d = os.path.join(run.scratch, "life-%d-%s" % (idx, variant))
+            os.makedirs(d, exist_ok=True)
+            names, total = [], {}
+            for f, fl in enumerate(c["files"]):
+                p = os.path.join(d, "in%02d.log" % f)
+                if not fl:
+                    p = os.path.join(d, "gone%02d.log" % f)
+                    if variant == "dir":
+                        os.makedirs(p, exist_ok=True)
+                else:
+                    with open(p, "w") as fh:
+                        for b, bt in enumerate(fl):
+                            for j, k in enumerate(bt):
+                                fh.write(("key%d payload %d.%d.%d\n" % (k, f, b, j)) if k else "zzz nomatch\n")
+                                if k:
+                                    total["key%d" % k] = total.get("key%d" % k, 0) + 1
+                names.append(p)
+            cmd = [exe, "histo", "-m", r"^(key\d+) ", "-e", "{1}", "--readers", str(c["readers"]), "--batch", str(c["batch"]), "-w", str(c["workers"])] + names
+            if nhang >= 2:
+                break       # two confirmed hangs decide; every further one costs two minutes
+            out = None
+            for deadline in (30, 90):
+                try:
+                    p = subprocess.run(cmd, capture_output=True, text=True, timeout=deadline, env=GOENV, cwd=d, stdin=subprocess.DEVNULL)
+                    out = p
+                    break
+                except subprocess.TimeoutExpired:
+                    continue
+            n += 1
+            if out is None:
+                nhang += 1
+                path = run.save_replay("cli-hang-%d-%s.json" % (idx, variant), {"cmd": cmd, "files": c["files"], "readers": c["readers"]})
+                run.violation("cli:hang", "rare histo --readers %d over %s (names that cannot be opened: %s) did not terminate within 30 s and, "
+                              "run again, within 90 s, although every input is exhausted" % (
+                                  c["readers"], ["unopenable" if not fl else "file" for fl in c["files"]], variant), path)
+                continue
+            if "panic:" in out.stderr or "fatal error:" in out.stderr:
+                path = run.save_replay("cli-life-crash-%d.txt" % idx, " ".join(cmd) + "\n" + out.stderr[-20000:])
+                run.violation("cli:crash", "rare histo crashed on unopenable names: %s" % out.stderr[-300:], path)
+                continue
+            shown = {}
+            for line in out.stdout.splitlines():
+                mm = re.match(r"^(key\d+)\s+([\d,]+)\b", line.strip())
+                if mm:
+                    shown[mm.group(1)] = int(mm.group(2).replace(",", ""))
+            if shown != total:
+                path = run.save_replay("cli-life-%d-%s.json" % (idx, variant), {"cmd": cmd, "stdout": out.stdout[-4000:], "stderr": out.stderr[-2000:], "want": total})
+                run.violation("cli:final-counts", "rare histo over files with unopenable names shows %s, the model's final render is %s" % (shown, total), path)
+    return n
 
 
 def cli_race(run, quick):
